@@ -22,11 +22,11 @@ import (
 	"veriftranslator/tx"
 
 	"bytes"
-	"os"
 	"fmt"
 	"go/ast"
 	"go/parser"
 	"go/token"
+	"os"
 	"path/filepath"
 	"strconv"
 	"strings"
@@ -675,6 +675,12 @@ func genStacks() ([]byte, error) {
    handshake_readers      (file, func, canonical first argument) of every msg.ReadMsg / msg.ReadMsgInto call in the functions
                           that read a handshake message from a connection and then hand the SAME connection to the tunnel
                           (stcp visitor handleConn, client handleReqWorkConn): a buffering reader in between swallows bytes
+   bw_scale_expr          canonical expression assigned to the byte count in BandwidthQuantity.UnmarshalString
+   bw_units               (unit constant, bytes) MB and KB of pkg/config/types
+   limiter_ctors          (file, canonical guard, rate argument, burst argument) of the rate.NewLimiter call in the client's
+                          and the server's proxy constructor
+   stcp_visitor_events    what stcp visitor handleConn does to the visitor connection in source order: "arm:/clear:<SetXDeadline>",
+                          prefixed "defer:" when inside a defer statement, "readmsg", "join"
    muxer_handle_events    what vhost.Muxer.handle does to a connection, in SOURCE ORDER: "arm:<SetXDeadline>" /
                           "clear:<SetXDeadline>" (argument time.Time{}), "sniff" (v.vhostFunc), "failHook", "successHook",
                           "checkAuth", "handoff" (send on l.accept), "?..." anything else that touches the connection
@@ -912,6 +918,112 @@ Definition T5_translated : bool := true.
 	}
 	fmt.Fprintf(&b, "Definition handshake_readers : list (string * string * string) := %s.\n\n", coqList(hrd, "    "))
 
+	// bandwidth quantity: string -> bytes -> limiter
+	bwExpr := "?"
+	if c, err := ctxOf("pkg/config/types/types.go", "UnmarshalString"); err == nil {
+		ast.Inspect(c.fd.Body, func(n ast.Node) bool {
+			if as, ok := n.(*ast.AssignStmt); ok && len(as.Lhs) == 1 && len(as.Rhs) == 1 {
+				if sel, ok := as.Lhs[0].(*ast.SelectorExpr); ok && sel.Sel.Name == "i" && identName(sel.X) == c.recv {
+					if bwExpr == "?" {
+						bwExpr = c.canon(as.Rhs[0])
+					} else {
+						bwExpr = "?several assignments"
+					}
+				}
+			}
+			return true
+		})
+	}
+	fmt.Fprintf(&b, "Definition bw_scale_expr : string := %s.\n\n", tx.CoqString(bwExpr))
+	var units []string
+	if fi, err := parse("pkg/config/types/types.go"); err == nil {
+		for _, d := range fi.f.Decls {
+			if gd, ok := d.(*ast.GenDecl); ok && gd.Tok == token.CONST {
+				for _, sp := range gd.Specs {
+					vs := sp.(*ast.ValueSpec)
+					for i, n := range vs.Names {
+						if (n.Name == "MB" || n.Name == "KB") && i < len(vs.Values) {
+							v, ok := constInt(vs.Values[i])
+							if !ok {
+								v = -1
+							}
+							units = append(units, fmt.Sprintf("(%s, (%d)%%Z)", tx.CoqString(n.Name), v))
+						}
+					}
+				}
+			}
+		}
+	}
+	fmt.Fprintf(&b, "Definition bw_units : list (string * Z) := %s.\n\n", coqList(units, "    "))
+	var ctors []string
+	for _, rel := range []string{"client/proxy/proxy.go", "server/proxy/proxy.go"} {
+		c, err := ctxOf(rel, "NewProxy")
+		if err != nil {
+			ctors = append(ctors, fmt.Sprintf("(%s, %s, %s, %s)", tx.CoqString(rel), tx.CoqString("?"), tx.CoqString("?"), tx.CoqString("?")))
+			continue
+		}
+		var walk func(list []ast.Stmt, guard string)
+		walk = func(list []ast.Stmt, guard string) {
+			for _, st := range list {
+				switch x := st.(type) {
+				case *ast.IfStmt:
+					walk(x.Body.List, c.canon(x.Cond))
+				case *ast.AssignStmt:
+					if len(x.Rhs) == 1 {
+						if call, ok := x.Rhs[0].(*ast.CallExpr); ok {
+							if sel, ok := call.Fun.(*ast.SelectorExpr); ok && sel.Sel.Name == "NewLimiter" && len(call.Args) == 2 {
+								ctors = append(ctors, fmt.Sprintf("(%s, %s, %s, %s)", tx.CoqString(rel), tx.CoqString(guard), tx.CoqString(c.canon(call.Args[0])), tx.CoqString(c.canon(call.Args[1]))))
+							}
+						}
+					}
+				}
+			}
+		}
+		walk(c.fd.Body.List, "")
+	}
+	fmt.Fprintf(&b, "Definition limiter_ctors : list (string * string * string * string) := %s.\n\n", coqList(ctors, "    "))
+
+	// stcp visitor: deadlines on the visitor connection relative to the join
+	var sve []string
+	if c, err := ctxOf("client/visitor/stcp.go", "handleConn"); err == nil {
+		var visit func(n ast.Node, pre string)
+		visit = func(n ast.Node, pre string) {
+			ast.Inspect(n, func(m ast.Node) bool {
+				switch x := m.(type) {
+				case *ast.DeferStmt:
+					visit(x.Call, "defer:")
+					return false
+				case *ast.CallExpr:
+					if sel, ok := x.Fun.(*ast.SelectorExpr); ok {
+						switch sel.Sel.Name {
+						case "SetDeadline", "SetReadDeadline", "SetWriteDeadline":
+							kind := "arm"
+							if len(x.Args) == 1 {
+								if cl, ok := x.Args[0].(*ast.CompositeLit); ok && len(cl.Elts) == 0 && typeString(cl.Type) == "time.Time" {
+									kind = "clear"
+								}
+							}
+							sve = append(sve, pre+kind+":"+sel.Sel.Name)
+						case "ReadMsgInto", "ReadMsg":
+							sve = append(sve, pre+"readmsg")
+						case "Join":
+							sve = append(sve, pre+"join")
+						}
+					}
+				}
+				return true
+			})
+		}
+		visit(c.fd.Body, "")
+	} else {
+		sve = []string{"?" + tx.Sanitize(err.Error())}
+	}
+	var sveq []string
+	for _, e := range sve {
+		sveq = append(sveq, tx.CoqString(e))
+	}
+	strsOf("stcp_visitor_events", sveq)
+
 	// vhost muxer: order of events on a connection
 	var mev []string
 	if c, err := ctxOf("pkg/util/vhost/vhost.go", "handle"); err == nil {
@@ -1111,5 +1223,3 @@ func yamuxDefaultCloseTimeoutMs() int64 {
 	})
 	return res
 }
-
-
